@@ -53,6 +53,10 @@ structure Holds (cfg : Cfg) : Prop where
         ∀ x ∈ reg, matchesPat n x.pat = true → ¬ MoreSpecific x.pat e.pat)
   /-- a second `settings.New` on the same root resolves every name to the same entry -/
   restart : ∀ reg n e, WF reg → (ResolvesTo cfg (reload cfg reg) n e ↔ ResolvesTo cfg reg n e)
+  /-- after ANY history of registrations, re-registrations and deregistrations (from any reachable
+      registry) the entry stored for every key is its LAST registration, nothing after a deregistration -/
+  registered : ∀ reg h, WF reg → (∀ op ∈ h, op.pat.NoSlash) →
+      entryFor (runOps cfg reg h) = specRun (entryFor reg) h
 
 /-- consequence of `orderIndependent`: the relation is functional -/
 theorem Holds.functional {cfg : Cfg} (h : Holds cfg) (reg : List Entry) (n : Name) (e1 e2 : Entry)
@@ -112,26 +116,55 @@ theorem resolve_restart (cfg : Cfg) (hp : cfg.persistsAll = true) (reg : List En
 
 /-- C21 holds for every reachable registry when the lookup ranks all matches strictly and
     every field is persisted. -/
-theorem holds_ranked (cfg : Cfg) (hg : cfg.goodRank = true) (hp : cfg.persistsAll = true) : Holds cfg :=
+theorem holds_ranked (cfg : Cfg) (hg : cfg.goodRank = true) (hp : cfg.persistsAll = true)
+    (hc : cfg.unchangedChecksType = true) : Holds cfg :=
   ⟨fun reg reg' n hw p => resolve_perm cfg hg reg reg' n hw p,
    fun reg n e hw h => resolve_most_specific cfg hg reg n e hw h,
-   fun reg n e hw => resolve_restart cfg hp reg n e hw⟩
+   fun reg n e hw => resolve_restart cfg hp reg n e hw,
+   fun reg h hw hns => (registry_follows_history cfg hc h reg hw hns).1⟩
+
+theorem entryFor_nil : entryFor [] = fun _ => none := funext fun _ => rfl
+
+/-- Names resolve to the LAST registration of the winning pattern: the entry a lookup returns from
+    the registry reached by a history is what the Spec function of that history holds for its key. -/
+theorem resolves_to_last_registration (cfg : Cfg) (hg : cfg.goodRank = true) (hc : cfg.unchangedChecksType = true)
+    (h : List RegOp) (hns : ∀ op ∈ h, op.pat.NoSlash) (n : Name) (e : Entry)
+    (hr : ResolvesTo cfg (runOps cfg [] h) n e) (hm : ∃ x ∈ runOps cfg [] h, matchesPat n x.pat = true) :
+    specRun (fun _ => none) h (canon e.pat) = some e := by
+  obtain ⟨hspec, hwf⟩ := registry_follows_history cfg hc h [] wf_nil hns
+  have hres := resolve_most_specific cfg hg _ n e hwf hr
+  rcases hres with ⟨hnone, _⟩ | ⟨hmem, _, _⟩
+  · obtain ⟨x, hx, hmx⟩ := hm
+    rw [hnone x hx] at hmx; contradiction
+  · have : entryFor (runOps cfg [] h) (canon e.pat) = some e := by
+      unfold entryFor
+      cases hf : (runOps cfg [] h).find? (hasKey (canon e.pat)) with
+      | none =>
+        have := List.find?_eq_none.mp hf e hmem
+        simp [hasKey] at this
+      | some e' =>
+        have hk : canon e'.pat = canon e.pat := by
+          have := List.find?_some hf
+          simpa [hasKey] using this
+        rw [hwf.keyed e' (List.mem_of_find?_eq_some hf) e hmem hk]
+    rw [hspec, entryFor_nil] at this
+    exact this
 
 /-! ### non-vacuity: a reachable registry with four overlapping patterns -/
 
 def bA : Bytes := [0x61]
 def bB : Bytes := [0x62]
 def bC : Bytes := [0x63]
-def fixedCfg : Cfg := ⟨.ranked, .gt, 2, 1, true, true, true, true⟩
+def fixedCfg : Cfg := ⟨.ranked, .gt, 2, 1, true, true, true, true, true⟩
 
 /-- exact, swamp-wildcard, realm-wildcard and double-wildcard patterns of sanctuary "a" -/
 def overlapping : List Entry :=
-  register (register (register (register [] ⟨bA, star, star⟩ false 9 9 9) ⟨bA, star, bC⟩ true 8 0 0)
+  register fixedCfg (register fixedCfg (register fixedCfg (register fixedCfg [] ⟨bA, star, star⟩ false 9 9 9) ⟨bA, star, bC⟩ true 8 0 0)
     ⟨bA, bB, star⟩ false 7 7 7) ⟨bA, bB, bC⟩ true 6 0 0
 
-example : fixedCfg.goodRank = true ∧ fixedCfg.persistsAll = true := by decide
+example : fixedCfg.goodRank = true ∧ fixedCfg.persistsAll = true ∧ fixedCfg.unchangedChecksType = true := by decide
 example : WF overlapping :=
-  wf_register _ (wf_register _ (wf_register _ (wf_register _ wf_nil _ (by decide) _ _ _ _) _ (by decide) _ _ _ _)
+  wf_register _ _ (wf_register _ _ (wf_register _ _ (wf_register _ _ wf_nil _ (by decide) _ _ _ _) _ (by decide) _ _ _ _)
     _ (by decide) _ _ _ _) _ (by decide) _ _ _ _
 example : overlapping.length = 4 ∧ (overlapping.filter (fun e => matchesPat ⟨bA, bB, bC⟩ e.pat)).length = 4 := by decide
 /-- all four match a/b/c; the exact one wins in this order and in the reversed one -/
@@ -250,6 +283,36 @@ theorem refutes_dropped_field (cfg : Cfg) (hg : cfg.goodRank = true) (hp : cfg.p
   · exact key ⟨⟨bA, bB, bC⟩, ⟨false, 7, 3, 9⟩⟩ (by decide) (by decide) (by simp [ofPM, toPM, h])
   · exact key ⟨⟨bA, bB, bC⟩, ⟨false, 7, 3, 9⟩⟩ (by decide) (by decide) (by simp [ofPM, toPM, h])
 
+/-! ### the re-registration quirk of the original RegisterPattern -/
+
+/-- a/x/p is registered in-memory (idle 4) and then persistent with idle 4, interval 0, size 0 -/
+def quirkHistory : List RegOp := [.reg ⟨bA, bB, bC⟩ true 4 0 0, .reg ⟨bA, bB, bC⟩ false 4 0 0]
+
+/-- The "not changed" early return compares idle / interval / size only: the second registration is
+    dropped and the pattern stays in-memory. -/
+theorem reregistration_ignored_witness (cfg : Cfg) (h : cfg.unchangedChecksType = false) :
+    runOps cfg [] quirkHistory = [⟨⟨bA, bB, bC⟩, ⟨true, 4, 0, 0⟩⟩] ∧
+    specRun (fun _ => none) quirkHistory (canon ⟨bA, bB, bC⟩) = some ⟨⟨bA, bB, bC⟩, ⟨false, 4, 0, 0⟩⟩ := by
+  constructor
+  · simp only [runOps, quirkHistory, List.foldl_cons, List.foldl_nil, applyOp]
+    simp [register, unchanged, h, hasKey, entryOf]
+  · decide
+
+theorem refutes_reregistration (cfg : Cfg) (h : cfg.unchangedChecksType = false) : ¬ Holds cfg := by
+  intro hh
+  have := hh.registered [] quirkHistory wf_nil (by
+    intro op hop
+    simp only [quirkHistory, List.mem_cons, List.mem_nil_iff, or_false] at hop
+    rcases hop with rfl | rfl <;> decide)
+  rw [entryFor_nil] at this
+  have h1 := congrFun this (canon ⟨bA, bB, bC⟩)
+  rw [(reregistration_ignored_witness cfg h).1, (reregistration_ignored_witness cfg h).2] at h1
+  simp [entryFor, hasKey] at h1
+
+/-- non-vacuity of the history clause: register, re-register with other numbers, deregister, register again -/
+example : (runOps fixedCfg [] [.reg ⟨bA, bB, bC⟩ true 4 0 0, .reg ⟨bA, bB, bC⟩ false 4 0 0, .reg ⟨bA, star, bC⟩ false 3 2 1,
+            .dereg ⟨bA, bB, bC⟩, .reg ⟨bA, bB, bC⟩ true 9 0 0]).map (·.f) = [⟨false, 3, 2, 1⟩, ⟨true, 9, 0, 0⟩] := by decide
+
 /-! ### Decision over the extracted facts -/
 
 structure Facts where
@@ -261,23 +324,28 @@ structure Facts where
   persistsIdle : Tri
   persistsWi : Tri
   persistsSize : Tri
+  unchangedChecksType : Tri   -- RegisterPattern's early return also requires the stored entry to be persistent
   deriving Repr
 
 def cfgOf (f : Facts) : Cfg :=
   ⟨f.lookup, f.cmp, (f.wRealm.getD 0 : Nat), (f.wSwamp.getD 0 : Nat),
-   f.persistsInMem.isYes, f.persistsIdle.isYes, f.persistsWi.isYes, f.persistsSize.isYes⟩
+   f.persistsInMem.isYes, f.persistsIdle.isYes, f.persistsWi.isYes, f.persistsSize.isYes, f.unchangedChecksType.isYes⟩
 
 def persistKnown (f : Facts) : Bool :=
-  f.persistsInMem != .unknown && f.persistsIdle != .unknown && f.persistsWi != .unknown && f.persistsSize != .unknown
+  f.persistsInMem != .unknown && f.persistsIdle != .unknown && f.persistsWi != .unknown && f.persistsSize != .unknown &&
+  f.unchangedChecksType != .unknown
 
 def classify (f : Facts) : Verdict :=
   if !persistKnown f then .undetermined "a persisted field of the pattern model was not recognised"
   else match f.lookup with
   | .iteratesMap =>
-    .violated (["C21-map-order-lookup"] ++ (if (cfgOf f).persistsAll then [] else ["C21-restart-loses-field"]))
+    .violated (["C21-map-order-lookup"] ++ (if (cfgOf f).persistsAll then [] else ["C21-restart-loses-field"]) ++
+      (if (cfgOf f).unchangedChecksType then [] else ["C21-reregistration-ignored"]))
   | .ranked =>
     if (cfgOf f).goodRank then
-      (if (cfgOf f).persistsAll then .holds else .violated ["C21-restart-loses-field"])
+      (if (cfgOf f).persistsAll && (cfgOf f).unchangedChecksType then .holds
+       else .violated ((if (cfgOf f).persistsAll then [] else ["C21-restart-loses-field"]) ++
+                       (if (cfgOf f).unchangedChecksType then [] else ["C21-reregistration-ignored"])))
     else .undetermined "the ranking in GetBySwampName is not a strict most-specific order"
   | .unknown => .undetermined "lookup loop of GetBySwampName not recognised"
 
@@ -298,9 +366,15 @@ theorem classify_sound (f : Facts) :
       split
       · rename_i hg
         split
-        · rename_i hp; exact holds_ranked _ hg hp
         · rename_i hp
-          exact ⟨refutes_dropped_field _ hg (by simpa using hp), fun h => by simp at h⟩
+          simp only [Bool.and_eq_true] at hp
+          exact holds_ranked _ hg hp.1 hp.2
+        · rename_i hp
+          refine ⟨?_, fun h => by simp at h⟩
+          simp only [Bool.and_eq_true, not_and, Bool.not_eq_true] at hp
+          cases h1 : (cfgOf f).persistsAll with
+          | false => exact refutes_dropped_field _ hg h1
+          | true => exact refutes_reregistration _ (hp h1)
       · trivial
     | unknown => trivial
 
